@@ -38,7 +38,12 @@ def run(tier):
     # network tier: three real binaries per sequence; mostly waiting (elections), so more workers than cores are fine
     tb, bindir = build_net()
     env = {'VERIF_TIER': tier, 'PATH': bindir + os.pathsep + os.environ.get('PATH', ''), 'VERIF_DEADLINE': str(int(t0 + budget * 0.6)), 'GOMAXPROCS': '2'}
-    rn = vlib.run_workers(tb, 'TestVerifC05Net', 24, env=env)
+    try:
+        rn = vlib.run_workers(tb, 'TestVerifC05Net', 24, env=env)
+    finally:
+        # the servers run in their own process groups: make sure none outlives a worker that died
+        import subprocess
+        subprocess.run(['pkill', '-9', '-f', 'robustirc .*-raftdir=' + vlib.scratch_dir()], stdout=subprocess.DEVNULL, stderr=subprocess.DEVNULL)
     net = {'sequences': sum(r.get('sequences', 0) for r in rn), 'operations': sum(r.get('ops', 0) for r in rn), 'depth': rn[0].get('depth'),
            'sigkills': sum(r.get('kills', 0) for r in rn), 'restarts': sum(r.get('restarts', 0) for r in rn), 'snapshots': sum(r.get('snapshots', 0) for r in rn),
            'leader_changes': sum(r.get('leader_changes', 0) for r in rn), 'streams_read': sum(r.get('streams_read', 0) for r in rn),
